@@ -186,6 +186,7 @@ func (c *V2) Do(op Op) (out Outcome) {
 	case OpPut:
 		in := &v2ddb.PutItemInput{TableName: aws.String(op.Table), Item: ItemToV2(op.Item), ConditionExpression: condExpr(op),
 			ExpressionAttributeNames: op.Names, ExpressionAttributeValues: ItemToV2(op.Values)}
+		in.ReturnConsumedCapacity = v2types.ReturnConsumedCapacity(op.RetCap)
 		if op.RetCCF {
 			in.ReturnValuesOnConditionCheckFailure = v2types.ReturnValuesOnConditionCheckFailureAllOld
 		}
@@ -202,6 +203,7 @@ func (c *V2) Do(op Op) (out Outcome) {
 		return fin(err)
 	case OpGet:
 		in := &v2ddb.GetItemInput{TableName: aws.String(op.Table), Key: ItemToV2(op.Key), ProjectionExpression: strp(op.Proj), ExpressionAttributeNames: op.Names}
+		in.ReturnConsumedCapacity = v2types.ReturnConsumedCapacity(op.RetCap)
 		in.AttributesToGet = op.AttrsToGet
 		if op.Consistent {
 			in.ConsistentRead = aws.Bool(true)
@@ -221,6 +223,7 @@ func (c *V2) Do(op Op) (out Outcome) {
 	case OpUpdate:
 		in := &v2ddb.UpdateItemInput{TableName: aws.String(op.Table), Key: ItemToV2(op.Key), UpdateExpression: updExpr(op),
 			ConditionExpression: condExpr(op), ExpressionAttributeNames: op.Names, ExpressionAttributeValues: ItemToV2(op.Values)}
+		in.ReturnConsumedCapacity = v2types.ReturnConsumedCapacity(op.RetCap)
 		if op.RetCCF {
 			in.ReturnValuesOnConditionCheckFailure = v2types.ReturnValuesOnConditionCheckFailureAllOld
 		}
@@ -243,6 +246,7 @@ func (c *V2) Do(op Op) (out Outcome) {
 	case OpDelete:
 		in := &v2ddb.DeleteItemInput{TableName: aws.String(op.Table), Key: ItemToV2(op.Key), ConditionExpression: condExpr(op),
 			ExpressionAttributeNames: op.Names, ExpressionAttributeValues: ItemToV2(op.Values)}
+		in.ReturnConsumedCapacity = v2types.ReturnConsumedCapacity(op.RetCap)
 		if op.RetOld {
 			in.ReturnValues = v2types.ReturnValueAllOld
 		}
@@ -272,6 +276,7 @@ func (c *V2) Do(op Op) (out Outcome) {
 		in := &v2ddb.QueryInput{TableName: aws.String(op.Table), FilterExpression: strp(op.Filter), ProjectionExpression: strp(op.Proj),
 			ExpressionAttributeNames: op.Names, ExpressionAttributeValues: ItemToV2(op.Values), IndexName: strp(op.Index),
 			ExclusiveStartKey: ItemToV2(op.Start)}
+		in.ReturnConsumedCapacity = v2types.ReturnConsumedCapacity(op.RetCap)
 		if !op.NoKC {
 			in.KeyConditionExpression = aws.String(op.KeyCnd)
 		}
@@ -323,6 +328,7 @@ func (c *V2) Do(op Op) (out Outcome) {
 		in := &v2ddb.ScanInput{TableName: aws.String(op.Table), FilterExpression: strp(op.Filter), ProjectionExpression: strp(op.Proj),
 			ExpressionAttributeNames: op.Names, ExpressionAttributeValues: ItemToV2(op.Values), IndexName: strp(op.Index),
 			ExclusiveStartKey: ItemToV2(op.Start)}
+		in.ReturnConsumedCapacity = v2types.ReturnConsumedCapacity(op.RetCap)
 		in.AttributesToGet = op.AttrsToGet
 		if op.Consistent {
 			in.ConsistentRead = aws.Bool(true)
@@ -369,6 +375,7 @@ func (c *V2) Do(op Op) (out Outcome) {
 		return o
 	case OpBatchWrite:
 		in := &v2ddb.BatchWriteItemInput{RequestItems: map[string][]v2types.WriteRequest{}}
+		in.ReturnConsumedCapacity = v2types.ReturnConsumedCapacity(op.RetCap)
 		for _, t := range op.EmptyTables {
 			in.RequestItems[t] = []v2types.WriteRequest{}
 		}
@@ -403,6 +410,7 @@ func (c *V2) Do(op Op) (out Outcome) {
 		return o
 	case OpBatchGet:
 		in := &v2ddb.BatchGetItemInput{RequestItems: map[string]v2types.KeysAndAttributes{}}
+		in.ReturnConsumedCapacity = v2types.ReturnConsumedCapacity(op.RetCap)
 		for _, e := range op.Gets {
 			ka := in.RequestItems[e.Table]
 			ka.Keys = append(ka.Keys, ItemToV2(e.Del))
